@@ -410,6 +410,32 @@ func (s *Sim) outs(os []AbsOut) []types.SiacoinOutput {
 	return r
 }
 
+// inflate realises AbsTx.Big: the first two siafund (siacoin) outputs become 2^63 SF (2^127 H) larger than stated (a
+// single output is split in two first), so that the outputs still balance the inputs modulo 2^64 (2^128) and only so.
+func inflate(big string, sco []types.SiacoinOutput, sfo []types.SiafundOutput) ([]types.SiacoinOutput, []types.SiafundOutput) {
+	switch big {
+	case "sf":
+		if len(sfo) == 1 {
+			sfo = append(sfo, types.SiafundOutput{Value: 0, Address: sfo[0].Address})
+		}
+		if len(sfo) >= 2 {
+			sfo[0].Value += 1 << 63
+			sfo[1].Value += 1 << 63
+		}
+	case "sc":
+		if len(sco) == 1 {
+			sco = append(sco, types.SiacoinOutput{Address: sco[0].Address})
+		}
+		if len(sco) >= 2 {
+			half := types.NewCurrency(0, 1<<63)
+			v0, _ := sco[0].Value.AddWithOverflow(half)
+			v1, _ := sco[1].Value.AddWithOverflow(half)
+			sco[0].Value, sco[1].Value = v0, v1
+		}
+	}
+	return sco, sfo
+}
+
 func (s *Sim) c1(c AbsC1) types.FileContract {
 	return types.FileContract{Filesize: c.Size, FileMerkleRoot: s.fileRoot(c.Size), WindowStart: c.Ws, WindowEnd: c.We,
 		Payout: cur(c.Pay), ValidProofOutputs: s.outs(c.Vo), MissedProofOutputs: s.outs(c.Mo),
@@ -685,6 +711,7 @@ func (b *BlockCtx) buildV1(t AbsTx) (types.Transaction, error) {
 	for _, o := range t.Sfo {
 		txn.SiafundOutputs = append(txn.SiafundOutputs, types.SiafundOutput{Value: o.Val, Address: s.K.Addr(o.Addr)})
 	}
+	txn.SiacoinOutputs, txn.SiafundOutputs = inflate(t.Big, txn.SiacoinOutputs, txn.SiafundOutputs)
 	if t.Fee > 0 {
 		txn.MinerFees = []types.Currency{cur(t.Fee)}
 	}
@@ -803,6 +830,10 @@ func (b *BlockCtx) buildV2(t AbsTx) (types.V2Transaction, error) {
 		if in.Auth == "wrongkey" {
 			pol, owner = s.K.Policy("X"), "X"
 		}
+		if in.Auth == "mislabel-mat" && e.StateElement.LeafIndex == types.UnassignedLeafIndex {
+			e.MaturityHeight = 0 // a parent created in this block, presented as mature although it is not
+			in.Auth = "ok"
+		}
 		txn.SiacoinInputs = append(txn.SiacoinInputs, types.V2SiacoinInput{Parent: e, SatisfiedPolicy: types.SatisfiedPolicy{Policy: pol}})
 		ins = append(ins, inAuth{owner, in.Auth, false, len(txn.SiacoinInputs) - 1})
 	}
@@ -824,6 +855,7 @@ func (b *BlockCtx) buildV2(t AbsTx) (types.V2Transaction, error) {
 	for _, o := range t.Sfo {
 		txn.SiafundOutputs = append(txn.SiafundOutputs, types.SiafundOutput{Value: o.Val, Address: s.K.Addr(o.Addr)})
 	}
+	txn.SiacoinOutputs, txn.SiafundOutputs = inflate(t.Big, txn.SiacoinOutputs, txn.SiafundOutputs)
 	txn.MinerFee = cur(t.Fee)
 	for _, raw := range t.Fc {
 		var c AbsC2
